@@ -166,8 +166,26 @@ func c04Whitespace(c *Ctx, idx int) {
 			}
 		}
 	}
-	c.Sample(map[string]any{"base": e, "gaps": len(gaps), "whitespace_strings": len(c04WS), "not_whitespace_runes": len(c04NotWS)})
+	// tokens of other query languages and of plausible extensions, at every gap: the
+	// grammar has none of them, so each insertion is judged by the reference recogniser
+	// (almost always a non-member); a lexer or parser that grew a new operator shows here
+	for gi, g := range gaps {
+		for ti, w := range c04Foreign {
+			if (gi+ti+idx)%3 != 0 && len(gaps) > 4 {
+				continue // a third of the (gap, token) pairs per base expression
+			}
+			for _, t := range []string{e[:g] + w + e[g:], e[:g] + " " + w + " " + e[g:]} {
+				pr := c.CheckGrammar(t, map[string]string{"family": "foreign-token"})
+				if pr.Status != ref.ParseGap {
+					c.Nontrivial(t)
+				}
+			}
+		}
+	}
+	c.Sample(map[string]any{"base": e, "gaps": len(gaps), "whitespace_strings": len(c04WS), "not_whitespace_runes": len(c04NotWS), "foreign_tokens": len(c04Foreign)})
 }
+
+var c04Foreign = []string{"??", "?", "?:", "?.", "?[", "=>", "->", "<-", "::", "..", "...", "~", "=~", "!~", "^", "^^", "#", ";", "\\", "===", "!==", "<>", "<<", ">>", "**", "%%", "++", "--", "+=", "-=", ":=", "<=>", "|>", "<|", "&&&", "|||", "|&", "&|", "!!=", "=", "===", "@@", "$$", "${", "#{", "{{", "}}", "[[", "]]", "[:", ":]", "(:", "/*", "*/", "--x", "not", "and", "or", "is", "null", "true", "false", "in", "of", "as", "if", "then", "else", "where", "select", "from", "like", "between", "div", "mod", "xor", "∧", "∨", "¬", "≠", "≤", "≥", "∈", "·", "∗", "⁄", "–", "—", "‐", "＋", "＊", "％", "，", "．", "：", "［", "］", "｛", "｝", "（", "）", "＠", "＆", "｜", "！", "＝", "＜", "＞", "0x1", "1_000", "1e", ".5", "5.", "1..2", "$1", "$-", "@1", "&&=", "||=", "0b1", "1n", "1f", "'", "\"", "`"}
 
 var c04EditTokens = []string{"a", "\"q\"", "'r'", "`1`", "`\"s\"`", "0", "-1", "1.5", ".", "*", ".*", "[", "]", "[*]", "[]", "[?", "{", "}", "(", ")", ",", ":", "|", "||", "&&", "&", "!", "==", "!=", "<", ">=", "+", "-", "/", "//", "%", "×", "@", "$", "$v", "let", "in", "=", "abs", "'"}
 
@@ -344,7 +362,7 @@ func c04NumText(c *Ctx, idx int) {
 func init() {
 	Register(&Property{
 		ID:            "C04",
-		Rule:          "Compile's verdict compared with two reference recognisers (STRICT accepts / LENIENT rejects; texts in between are not judged): every token gap of a base set (valid corpus expressions + generated members) filled with each of 5 whitespace strings (exhaustive); the complete single-token-edit neighbourhood of the base set (delete, duplicate, swap, replace by / insert each of 45 token kinds, truncate) (exhaustive); hand-written member and non-member lists (escapes, malformed JSON literals, wrong token kinds in key/index position); generated members in hostile spellings; generated and corrupted JSON literal texts; non-trivial = text judged by the recognisers; distinct by text",
+		Rule:          "Compile's verdict compared with two reference recognisers (STRICT accepts / LENIENT rejects; texts in between are not judged): every token gap of a base set (valid corpus expressions + generated members) filled with each of 5 whitespace strings (exhaustive); a third of the (gap, token) pairs of ~125 foreign tokens (operators and keywords of other query languages, plausible extensions, full-width and mathematical look-alikes of the grammar's own operators, number spellings JSON does not have) inserted bare and space-separated; the complete single-token-edit neighbourhood of the base set (delete, duplicate, swap, replace by / insert each of 45 token kinds, truncate) (exhaustive); hand-written member and non-member lists (escapes, malformed JSON literals, wrong token kinds in key/index position); generated members in hostile spellings; generated and corrupted JSON literal texts; non-trivial = text judged by the recognisers; distinct by text",
 		MinNontrivial: 2000,
 		Streams: []Stream{
 			{Name: "lists", N: func(c *Ctx) int { return len(c04Members) + len(c04NonMembers) }, Run: c04Lists, Exhaustive: true},
